@@ -586,7 +586,11 @@ func (g *groundCtx) jumpTests() {
 
 // ---- C19: constants and stubs across build targets ----
 
-var quickTargets = []string{"linux/amd64", "linux/386", "linux/arm", "linux/arm64", "linux/riscv64", "darwin/arm64", "windows/amd64"}
+// quick: the five Linux architectures that matter (four with tables, one without) and one target of every other
+// operating system of `go tool dist list` (build constraints usually select files per operating system); thorough: all.
+var quickTargets = []string{"linux/amd64", "linux/386", "linux/arm", "linux/arm64", "linux/riscv64", "darwin/arm64", "windows/amd64",
+	"freebsd/amd64", "openbsd/amd64", "netbsd/arm64", "dragonfly/amd64", "solaris/amd64", "illumos/amd64", "aix/ppc64", "plan9/amd64",
+	"js/wasm", "wasip1/wasm", "android/arm64", "ios/arm64"}
 
 func (g *groundCtx) uapi() map[string]uint64 {
 	read := func(f string) string {
